@@ -142,3 +142,10 @@ package types
 //@ interface SegmentReader.Close
 //@   assigns self.closed
 //@   ensures self.closed
+
+//@ -- SegmentFiler as the WAL sees it: a created segment is an empty, unsealed
+//@ -- writer for the requested BaseIndex (segment.(*Filer).Create is proved to
+//@ -- return a Writer with commitIdx == 0 and indexStart == 0, [C03.create-appendable])
+//@ interface SegmentFiler.Create
+//@   assigns g_open
+//@   ensures result1 == nil ==> result0 != nil && result0.base == info.BaseIndex && result0.last == 0 && !result0.sealed
